@@ -320,6 +320,12 @@ func (u *UntrustedInputChecker) OnVisitNodeLeave(n ExprNode) {
 	case *IndexAccessNode:
 		if lit, ok := n.Index.(*StringNode); ok {
 			// Special case like github['event']['issue']['title']
+			if lit.Value == "*" {
+				// ['*'] is a property literally named "*". It is neither an array element nor an
+				// object filter, so it must not match the "*" nodes of the search tree
+				u.cur = u.cur[:0]
+				break
+			}
 			// Property names are case insensitive: github.event['Issue'] is github.event.issue
 			u.onPropAccess(strings.ToLower(lit.Value))
 			break
